@@ -294,6 +294,24 @@ func (w *world) planRound(np, start, stop, tip int, forced []string, forcedD []i
 			w.t.Hit("getblock.fail")
 		}
 	}
+	// what every peer would hand out at the OTHER heights of the batch (the true
+	// filter): without these rows the oracle knows of no peer that serves the whole
+	// batch honestly and makes no honest-wins claim for batches longer than the
+	// set of deviation heights
+	if n <= 64 {
+		for h := start; h <= stop; h++ {
+			if seenH[h] {
+				continue
+			}
+			for _, rp := range ps {
+				if f := rp.served[h]; f >= 0 {
+					w.t.Line("fl %d %d %d => -", rp.id, h, f)
+				} else {
+					w.t.Line("fl %d %d - => -", rp.id, h)
+				}
+			}
+		}
+	}
 	return ps
 }
 
